@@ -60,6 +60,9 @@ type emitter struct {
 	shard      int
 	nshards    int
 	samples    []string
+	// selfSharded: the engine derives different cases per shard itself (from the shard number), so every case it
+	// emits belongs to this shard
+	selfSharded bool
 }
 
 func newEmitter(w *bufio.Writer, engine string) *emitter {
@@ -70,7 +73,7 @@ func newEmitter(w *bufio.Writer, engine string) *emitter {
 // implementation's output) is used to drop duplicate cases so that counts are of distinct inputs.
 func (e *emitter) emit(key string, fields ...string) bool {
 	h := maphash.String(e.seed, key)
-	if e.nshards > 1 && fnv(key)%uint64(e.nshards) != uint64(e.shard) {
+	if e.nshards > 1 && !e.selfSharded && fnv(key)%uint64(e.nshards) != uint64(e.shard) {
 		return false
 	}
 	if _, dup := e.seen[h]; dup {
